@@ -15,6 +15,7 @@ import (
 func init() { registry["C07"] = &propDef{e1: c07Scenarios, e2: c07E2} }
 
 type c07Input struct {
+	Disabled int      `json:"disabled_mask"` // bit i: process i is disabled: true
 	N        int      `json:"n"`
 	Edges    [][2]int `json:"edges"` // [from, to]: from depends on to (to == N means the undefined name)
 	Strict   bool     `json:"strict"`
@@ -35,6 +36,9 @@ func (in c07Input) yaml() string {
 		fmt.Fprintf(&b, "  %s:\n    command: \"true\"\n", c07Name(i))
 		if i == 0 && in.Replicas > 1 {
 			fmt.Fprintf(&b, "    replicas: %d\n", in.Replicas)
+		}
+		if in.Disabled>>i&1 == 1 {
+			b.WriteString("    disabled: true\n")
 		}
 		first := true
 		for _, e := range in.Edges {
@@ -173,12 +177,35 @@ func c07E2(tier string, o *E2Out) {
 						in := c07Input{N: c.n, Edges: edges, Strict: strict, Replicas: rep}
 						c07One(o, dir, in, c.full)
 					}
+					// disabled processes do not change what is a valid relation: cycles and dangling
+					// names are rejected whoever owns the edge (n <= 3, every disabled marking)
+					if c.n <= 3 && len(edges) > 0 && len(edges) <= 3 {
+						for mask := 1; mask < 1<<c.n; mask++ {
+							in := c07Input{N: c.n, Edges: edges, Strict: strict, Replicas: 1, Disabled: mask}
+							c07Disabled(o, dir, in)
+						}
+					}
 				}
 				if c.n == 1 && dang == 0 {
 					break
 				}
 			}
 		}
+	}
+}
+
+// c07Disabled: accept/reject only (a disabled dependency of an enabled process is an error in strict mode by design).
+func c07Disabled(o *E2Out, dir string, in c07Input) {
+	files := map[string]string{"pc.yaml": in.yaml()}
+	o.Evaluations++
+	_, err := loadFiles(dir, files, []string{"pc.yaml"}, in.Strict)
+	wantFail := in.cyclic() || in.dangling()
+	if wantFail && err == nil {
+		sig := "accepts-dangling:disabled-owner"
+		if in.cyclic() {
+			sig = "accepts-cycle:disabled-member"
+		}
+		o.violation("C07", sig, "Load accepts an invalid dependency relation when processes are disabled", in)
 	}
 }
 
